@@ -11,7 +11,6 @@ use regex::Captures;
 use regex::Error;
 use regex::Regex;
 
-use crate::util::error_exit;
 
 #[derive(Clone, Debug)]
 pub struct DockerignoreFilter {
@@ -72,15 +71,20 @@ pub fn matches_dockerignore_filter(
 
     let file_name = file_name.to_string().replace("\\", "/").replace("//", "/");
 
+    // as in Docker: the last matching pattern decides, and a pattern that matches a parent
+    // directory applies to everything below it
     for dockerignore_filter in dockerignore_filters {
-        let is_match = dockerignore_filter.regex.is_match(&file_name);
+        let mut candidate = file_name.as_str();
+        loop {
+            if dockerignore_filter.regex.is_match(candidate) {
+                matched = !dockerignore_filter.negate;
+                break;
+            }
 
-        if is_match && dockerignore_filter.negate {
-            return false;
-        }
-
-        if is_match {
-            matched = true;
+            match candidate.rfind('/') {
+                Some(idx) if idx > 0 => candidate = &candidate[..idx],
+                _ => break,
+            }
         }
     }
 
@@ -142,26 +146,23 @@ fn convert_dockerignore_pattern(
 }
 
 static DOCKER_CONVERT_REPLACE_REGEX: LazyLock<Regex> = LazyLock::new(|| {
-    Regex::new("(\\*\\*|\\?|\\.|\\*)").unwrap()
+    Regex::new("(\\*\\*/|\\*\\*|\\?|\\*|[^*?]+)").unwrap()
 });
 
+/// Patterns are rooted at the directory of the .dockerignore file: `*` and `?` do not cross
+/// a `/`, `**` does; leading and trailing slashes are not significant.
 fn convert_dockerignore_glob(glob: &str, file_path: &Path) -> Result<Regex, Error> {
-    let mut pattern = DOCKER_CONVERT_REPLACE_REGEX
-        .replace_all(glob, |c: &Captures| {
-            match c.index(0) {
-                "**" => ".*",
-                "." => "\\.",
-                "*" => "[^/]*",
-                "?" => "[^/]",
-                _ => error_exit(".dockerignore", "Error parsing pattern"),
-            }
-            .to_string()
+    let glob = glob.trim().trim_matches(|c| c == '/' || c == '\\');
+
+    let pattern = DOCKER_CONVERT_REPLACE_REGEX
+        .replace_all(glob, |c: &Captures| match c.index(0) {
+            "**/" => "(.*/)?".to_string(),
+            "**" => ".*".to_string(),
+            "*" => "[^/]*".to_string(),
+            "?" => "[^/]".to_string(),
+            literal => regex::escape(literal),
         })
         .to_string();
-
-    while pattern.starts_with("/") || pattern.starts_with("\\") {
-        pattern.remove(0);
-    }
 
     #[cfg(windows)]
     let path = file_path
@@ -173,7 +174,5 @@ fn convert_dockerignore_glob(glob: &str, file_path: &Path) -> Result<Regex, Erro
     #[cfg(not(windows))]
     let path = file_path.to_string_lossy().to_string();
 
-    pattern = path.replace("\\", "\\\\").add("/([^/]+/)*").add(&pattern);
-
-    Regex::new(&pattern)
+    Regex::new(&format!("^{}/{}$", regex::escape(path.trim_end_matches('/')), pattern))
 }
